@@ -114,11 +114,11 @@ Print Assumptions composite_in_range.
 
 Example wellformed_document_example :
   Forall layer_ok
-    [Px (0, 0, 2, 1)%Z [[51; 204]%Z] [255; 128]%Z (MkAttrs true 255 255 BNormal false None false);
-     Gr true [Px (1, 0, 3, 1)%Z [[10; 20]%Z] [64; 255]%Z
-                (MkAttrs true 128 64 BMultiply false (Some (MkMask (1, 0, 2, 1)%Z [128%Z] 255 (Some 200%Z) false)) false)]
-        (MkAttrs true 200 255 BNormal false None false)].
-Proof. repeat (constructor; unfold is_byte, attrs_ok, mask_ok, bytes_ok; cbn; try Lia.lia); repeat constructor; unfold is_byte; Lia.lia. Qed.
+    [Px (0, 0, 2, 1)%Z [[51; 204]%Z] [255; 128]%Z (MkAttrs true 255 255 BNormal false None false 255);
+     Gr true [Px (1, 0, 3, 1)%Z [[1000; 65535]%Z] [16384; 40000]%Z       (* a layer of a 16-bit document *)
+                (MkAttrs true 128 64 BMultiply false (Some (MkMask (1, 0, 2, 1)%Z [32768%Z] 255 (Some 200%Z) false)) false 65535)]
+        (MkAttrs true 200 255 BNormal false None false 255)].
+Proof. repeat (constructor; unfold is_byte, attrs_ok, mask_ok, vals_ok; cbn; try Lia.lia); repeat constructor; unfold is_byte; Lia.lia. Qed.
 
 (* the rational instance that vm_compute executes in the correspondence check is, through Q2R, exactly the
    real instance the theorems above speak about: whole document model, kernel and sampling *)
